@@ -27,15 +27,28 @@ def gen_program(rng):
     pg = rng.choice([None, None, "B", "Fragment", "Z.F"])
     he, hf = rng.random() < 0.6, rng.random() < 0.4
     lines = []
-    if pf:
-        lines.append("/** @jsx %s */" % pf)
-    if pg:
-        lines.append("/** @jsxFrag %s */" % pg)
+    style = rng.randrange(4)
+    if style == 0 or not (pf or pg):
+        if pf:
+            lines.append("/** @jsx %s */" % pf)
+        if pg:
+            lines.append("/** @jsxFrag %s */" % pg)
+    elif style == 1:     # pragmas sharing one comment with a runtime pragma
+        lines.append("/** @jsxRuntime classic%s%s */" % (" @jsx " + pf if pf else "", " @jsxFrag " + pg if pg else ""))
+    elif style == 2:     # multi-line header
+        lines.append("/**\n * @jsxRuntime classic\n%s%s */" % (" * @jsx %s\n" % pf if pf else "", " * @jsxFrag %s\n" % pg if pg else ""))
+    else:
+        lines.append("/** %s%s @jsxImportSource preact */" % ("@jsx " + pf + " " if pf else "", "@jsxFrag " + pg if pg else ""))
     for i, n in enumerate(decl):
         k = rng.randrange(4)
         lines.append(["import %s from 'm%d';" % (n, i), "import * as %s from 'n%d';" % (n, i), "const %s = %d;" % (n, i), "function %s() {}" % n][k])
     for n in used:
         lines.append("void %s;" % n)
+    # names used only in type positions (verbatim-module-syntax territory): they count as used for no-unused-vars
+    tused = [n for n in decl if n not in used and rng.random() < 0.25]
+    for i, n in enumerate(tused):
+        lines.append("let t%d: typeof %s | undefined; void t%d;" % (i, n, i))
+    used = used + tused
     if he:
         lines.append("void (<div x={1}>t</div>);")
     if hf:
@@ -76,6 +89,23 @@ def c18(ctx):
         want = r.list(r.str)
         if got != want:
             mism.append({"case": c, "impl_unused": got, "model_unused": want})
+            # is the PROPERTY violated on this input?  (pragma wins; only idents of the effective factory may disappear; only with JSX)
+            base_unused = [x for x in p["decl"] if x not in p["used"]]
+            removed = set(base_unused) - set(got)
+            eff = set()
+            if p["he"]:
+                e = p["pf"] or c["jsx"]
+                if e: eff.add(e.split(".")[0])
+            if p["hf"]:
+                e = p["pg"] or c["jsxfrag"]
+                if e: eff.add(e.split(".")[0])
+            if not removed <= eff:
+                ctx.violation("C18.removes-non-factory-ident-or-ignores-pragma", "no-unused-vars dropped %s; effective factory identifiers are %s" % (sorted(removed - eff), sorted(eff)),
+                              {"case": c, "impl_unused": got, "expected_unused": want})
+            elif set(got) - set(base_unused):
+                ctx.violation("C18.config-adds-report", "unexpected reports %s" % sorted(set(got) - set(base_unused)), {"case": c})
+            elif (eff & set(base_unused)) - removed:
+                ctx.violation("C18.factory-ident-still-reported", "the effective factory identifier %s is still reported" % sorted((eff & set(base_unused)) - removed), {"case": c, "impl_unused": got})
         if want != [x for x in p["decl"] if x not in p["used"]]:
             nontriv += 1
     ctx.correspondence("no-unused-vars vs the extracted factory model (generated top-level declarations / usages / pragmas / JSX presence x configurations)",
@@ -95,6 +125,11 @@ def c18(ctx):
         for (cf, cg) in CONFIGS:
             dcases.append({"src": src, "media": media, "rules": "all", "jsx": cf, "jsxfrag": cg})
         dmeta.append((k, src, media, pr))
+    for p in progs[:600 if ctx.tier == "quick" else 6000]:
+        k = len(dcases)
+        for (cf, cg) in CONFIGS:
+            dcases.append({"src": p["src"], "media": "tsx", "rules": "all", "jsx": cf, "jsxfrag": cg})
+        dmeta.append((k, p["src"], "tsx", 1.0 if not (p["pf"] and p["pg"]) else 0.2))
     res = lib.run_vh("lint", dcases, per_case_timeout=5)
     nontriv2 = set()
     nbad = collections.Counter()
